@@ -484,6 +484,16 @@ func (x *Engine) havocLoc(st, pre *State, m *Clause, env map[string]Val, pkg *ss
 				x.havocKey(st, x.memKey(tn.Type()))
 				return
 			}
+		case "allfields":
+			// allfields(Type): every field of every object of that struct type
+			if tn := x.typeByNode(pkg, n.Args[1]); tn != nil {
+				ks := map[string]bool{}
+				x.structKeys(tn.Type(), ks)
+				for k := range ks {
+					x.havocKey(st, k)
+				}
+				return
+			}
 		case "all":
 			// all(Type.field): whole field array
 			if n.Args[1].Op == "sel" && n.Args[1].Args[0].Op == "ident" {
@@ -606,6 +616,15 @@ func (x *Engine) modKeyStatic(fs *FuncSpec, m *Clause) (keys []string, ok bool) 
 		case "cells":
 			if tn, ok := pkg.Members[n.Args[1].Name].(*ssa.Type); ok {
 				return []string{x.memKey(tn.Type())}, true
+			}
+		case "allfields":
+			if tn := x.typeByNode(pkg, n.Args[1]); tn != nil {
+				ks := map[string]bool{}
+				x.structKeys(tn.Type(), ks)
+				for k := range ks {
+					keys = append(keys, k)
+				}
+				return keys, true
 			}
 		case "all":
 			if tn, ok := pkg.Members[n.Args[1].Args[0].Name].(*ssa.Type); ok {
@@ -885,4 +904,36 @@ func (x *Engine) closureSummary(fr *Frame, st *State, v Val) {
 	}
 	app := x.pureApp(st, key, sig, Val{T: v.T, Typ: types.Typ[types.Int]}, args)
 	x.emit(fmt.Sprintf("(assert (forall (%s) (! (= %s %s) :pattern (%s))))", strings.Join(formals, " "), app.T, term, app.T))
+}
+
+// typeByNode resolves `T` or `pkg.T` to a named type.
+func (x *Engine) typeByNode(pkg *ssa.Package, n *Node) *ssa.Type {
+	if n.Op == "ident" && pkg != nil {
+		tn, _ := pkg.Members[n.Name].(*ssa.Type)
+		return tn
+	}
+	if n.Op == "sel" && n.Args[0].Op == "ident" {
+		for _, p := range x.prog.AllPackages() {
+			if p.Pkg.Name() == n.Args[0].Name && isRepoPkg(p.Pkg) {
+				if tn, ok := p.Members[n.Name].(*ssa.Type); ok {
+					return tn
+				}
+			}
+		}
+		// the qualifier may be a file-local import alias: accept a unique type of that name
+		var found *ssa.Type
+		cnt := 0
+		for _, p := range x.prog.AllPackages() {
+			if isRepoPkg(p.Pkg) {
+				if tn, ok := p.Members[n.Name].(*ssa.Type); ok {
+					found = tn
+					cnt++
+				}
+			}
+		}
+		if cnt == 1 {
+			return found
+		}
+	}
+	return nil
 }
